@@ -558,6 +558,85 @@ def f_not(x):
     return ('not', x)
 
 
+def split_args(s: str) -> List[str]:
+    """top-level comma-separated operands of an atom's argument text"""
+    out, depth, cur = [], 0, ''
+    quote = None
+    for ch in s:
+        if quote:
+            cur += ch
+            if ch == quote:
+                quote = None
+            continue
+        if ch in '\'"':
+            quote = ch
+            cur += ch
+        elif ch in '([':
+            depth += 1
+            cur += ch
+        elif ch in ')]':
+            depth -= 1
+            cur += ch
+        elif ch == ',' and depth == 0:
+            out.append(cur)
+            cur = ''
+        else:
+            cur += ch
+    if cur:
+        out.append(cur)
+    return out
+
+
+_NOCONST = object()
+
+
+def _const_of(text: str):
+    try:
+        return ast.literal_eval(text)
+    except (ValueError, SyntaxError, TypeError, MemoryError, RecursionError):
+        return _NOCONST
+
+
+def _truthy_from_comparisons(x: str, leaf: Leaf) -> Optional[bool]:
+    """Truthiness of the symbolic value `x` (its vkey) as far as the comparisons decided on the path settle it:
+    equal to a constant -> that constant's truthiness; a member of a constant collection whose elements are all
+    truthy (all falsy) -> true (false); a header value (a string or None) that is neither None nor '' -> true."""
+    for atom, val in leaf.decisions.items():
+        if val is not True or '(' not in atom:
+            continue
+        kind, inner = atom[:atom.index('(')], atom[atom.index('(') + 1:-1]
+        if kind not in ('eq', 'in'):
+            continue
+        parts = split_args(inner)
+        if len(parts) != 2:
+            continue
+        if kind == 'eq' and x in parts:
+            k = _const_of(parts[1] if parts[0] == x else parts[0])
+            if k is not _NOCONST:
+                return bool(k)
+        if kind == 'in' and parts[0] == x:
+            k = _const_of(parts[1])
+            if isinstance(k, (tuple, list, set, frozenset)) and k:
+                if all(bool(e) for e in k):
+                    return True
+                if not any(bool(e) for e in k):
+                    return False
+    if x.startswith(('reqhdr(', 'prehdr(')):
+        # a header value is a string or None: it is truthy iff it is neither None nor ''
+        not_none = leaf.value_of('none(%s)' % x) is False
+        not_empty = leaf.value_of('eq(%s,%s)' % tuple(sorted(("''", x)))) is False
+        for atom, val in leaf.decisions.items():
+            if val is False and atom.startswith('in(%s,' % x):
+                parts = split_args(atom[3:-1])
+                k = _const_of(parts[1]) if len(parts) == 2 else _NOCONST
+                if isinstance(k, (tuple, list, set, frozenset)):
+                    not_none = not_none or any(e is None for e in k)
+                    not_empty = not_empty or any(isinstance(e, str) and e == '' for e in k)
+        if not_none and not_empty:
+            return True
+    return None
+
+
 def ev3(form, leaf: Leaf) -> Optional[bool]:
     """True / False / None (undetermined on this path)."""
     k = form[0]
@@ -570,6 +649,8 @@ def ev3(form, leaf: Leaf) -> Optional[bool]:
                 v = False
             elif a.startswith('truthy(') and leaf.value_of('none(' + a[7:]) is True:
                 v = False
+            elif a.startswith('truthy('):
+                v = _truthy_from_comparisons(a[7:-1], leaf)
         if v is None:
             return None
         return v == form[2]
